@@ -120,6 +120,7 @@ fn main() {
                 let long: u64 = arg(&args, "long", 0);
                 cli::GEN_SUB.store(arg::<u64>(&args, "sub", 0) as u8, std::sync::atomic::Ordering::SeqCst);
                 cli::GEN_V2.store(arg::<u64>(&args, "v2", 0) as u8, std::sync::atomic::Ordering::SeqCst);
+                cli::GEN_BURST.store(arg::<u64>(&args, "burst", 0) as u8, std::sync::atomic::Ordering::SeqCst);
                 srv::generate(&mut out, seed, scripts, len, wo == 1, faults == 1, extreme == 1, long == 1);
             } else {
                 for (i, (h, ops)) in read_scripts(&replay).iter().enumerate() {
